@@ -82,7 +82,7 @@ def case1(args):
         return res
     env = dict(os.environ, VT_TRACE=os.path.join(out, "trace.txt"), PYTHONDONTWRITEBYTECODE="1")
     rc, so, se = build.sh([PY, "driver.py"], out, env=env, timeout=300)
-    tr = open(os.path.join(out, "trace.txt")).read() if os.path.exists(os.path.join(out, "trace.txt")) else ""
+    tr = open(os.path.join(out, "trace.txt"), errors="replace").read() if os.path.exists(os.path.join(out, "trace.txt")) else ""
     got_obs = [l for l in so.split("\n") if l.startswith("OBS ")]
     per = {}
     cur = None
@@ -187,7 +187,14 @@ def run(ctx):
             if decl is None and len(job[2]) == 1:
                 decl = job[2][0].decl()
             if kind in ("generate", "build"):
+                # where property C05 records why this shape does not build it is listed as uncovered; otherwise a documented
+                # entry point cannot be called from Python at all
                 unbuilt.add("%s [%s]" % (decl, job[3]))
+                fs = [f for f in job[2] if f.decl() == decl] or list(job[2])
+                sig0 = c01.atom_sig(fs[0])
+                if len(job[2]) == 1 and not c01.known_unbuildable(ctx, sig0, job[3], "py", 0):
+                    ctx.violation("not-callable %s [%s]" % (sig0, job[3]), "%s cannot be called from Python at all (%s): %s" % (decl, job[3], msg[:700]),
+                                  {"kind": "not-callable", "decl": decl, "lang": job[3]})
                 continue
             sig = None
             for f in job[2]:
